@@ -20,7 +20,7 @@ META = dict(
     technique="exhaustive enumeration of object classes x axis kinds x dtypes x metadata shapes x lazy/eager x store kinds; round trip compared field by field",
     text="Every writable array-object class, 9 ensemble-axis configurations, the dtypes the class accepts, 6 metadata shapes, lazy and eager objects, "
          "directory and zip stores, single objects and ComputableLists are written with to_zarr and read back with from_zarr; type, array, dtype, "
-         "every axis (type and dict) and the metadata are compared.",
+         "every axis (type and dict) and the metadata are compared. Lists of three same-class objects are written to one file and every subset of the loaded lazy items is evaluated in one dask graph.",
     note="Bound: arrays <= (2,3,6,5). Stores are created in a per-case temporary directory under /dev/shm (or $TMPDIR) and removed. A class for which "
          "to_zarr is unsupported is recorded as uncovered, not as a violation.",
 )
